@@ -96,3 +96,57 @@ profiles.CHECKS["C07"]["profiles"] = [("clean_hpc_small", 0.45), ("clean_hpc", 0
 profiles.RULES["C07"] += ("; dry-run twin: the login round of a drawn scenario is executed with dry_run false and true, the batch "
                           "configs written must be identical job-for-job and the dry-run world must never see sbatch, a scheduler job "
                           "or a launch")
+
+
+# ------------------------------------------------------------------------------------------------
+# Foreign submitter rounds with a slow status query: rounds started by the user (or by other nodes)
+# right after job exits, whose squeue takes tens of seconds, so that batches record their last
+# results and leave the queue *inside* another round.  (A fault-free schedule: slow scheduler
+# commands are ordinary on a busy cluster.)
+def gen_foreign_rounds(ch, prof):
+    from .scenario import Gen
+
+    sc = gen_scenario(ch, prof)
+    g = Gen(ch)
+    n = len(sc["jobs"])
+    sc["env"]["p_stall"] = 0.0
+    sc["env"]["op_lat"] = g.pick([0.0, 0.0, 0.02])
+    sc["env"]["p_preempt"] = g.pick([0.1, 0.3])
+    sc["env"]["preempt_max"] = g.pick([1.0, 10.0, 10.0])
+    sc["env"]["lat"] = dict(sc["env"].get("lat") or {}, squeue=g.pick([0.0, 0.0, 3.0, 30.0, 120.0]))
+    mn = g.pick([None, 2, 3, 4])
+    for grp in sc["groups"]:
+        grp["params"]["max_nodes"] = mn
+        if not grp["params"]["time_based_batching"]:
+            grp["params"]["per_node_batch_size"] = g.pick([1, 2, 3, 4])
+    user = []
+    for _ in range(g.rint(2, 5)):
+        if g.flip(0.5):
+            after = {"kind": "job_exit", "n": g.rint(1, max(1, n))}
+            delay = g.pick([0.0, 0.0, 0.1, 0.5, 2.0])
+        else:
+            # ... or at the very moment a node records a result (several jobs of a batch often end in
+            # the same poll tick: the round collects that node's file while the node is still appending)
+            after = {"kind": "fs", "op": "write", "path_has": "results/results_batch_", "n": g.rint(1, max(1, n))}
+            delay = g.pick([0.0, 0.0, 0.0, 0.01])
+        user.append({"cmd": g.weighted([("try-submit-jobs", 3), ("show-status", 1)]), "after": after, "delay": delay,
+                     "host": g.pick([None, None, "login2"])})
+    # jobs of one batch that end in the same tick
+    if g.flip(0.5):
+        d = g.pick([1.0, 5.0, 30.0])
+        for j in sc["jobs"]:
+            if g.flip(0.7):
+                j["dur"] = d
+    sc["user"] = user
+    return sc
+
+
+profiles.profile("foreign_rounds", mode="hpc", fault_free=True, kind="world", gen=gen_foreign_rounds, max_jobs=8, min_jobs=2)
+profiles.PROFILE_PROPS["foreign_rounds"] = ["C01", "C02", "C03", "C04", "C05", "C08", "C09"]
+profiles.CHECKS["C01"]["profiles"] = [("clean_hpc", 0.85), ("foreign_rounds", 0.15)]
+profiles.CHECKS["C03"]["profiles"] = [("clean_hpc", 0.55), ("clean_local", 0.25), ("foreign_rounds", 0.2)]
+profiles.CHECKS["C05"]["profiles"] = [("clean_hpc", 0.8), ("foreign_rounds", 0.2)]
+profiles.CHECKS["C08"]["profiles"] = [("comp_results", 0.7), ("clean_hpc", 0.15), ("foreign_rounds", 0.15)]
+for _p in ("C01", "C03", "C05", "C08"):
+    profiles.RULES[_p] += ("; plus the profile foreign_rounds (user rounds started right after job exits, status queries that take "
+                           "tens of seconds, several small batches ending inside other rounds)")
